@@ -170,7 +170,7 @@ class _Worker:
         return self.p.poll() is None
 
 
-def pmap(module, tasks, timeout=60, nproc=None, env=None):
+def pmap(module, tasks, timeout=60, nproc=None, env=None, fresh=False):
     """Run `harness.drivers.<module>.run(task)` for every task in worker processes.
     Returns results in task order; a task exceeding `timeout` seconds yields
     {"_timeout": True} (its worker is killed and replaced)."""
@@ -193,6 +193,9 @@ def pmap(module, tasks, timeout=60, nproc=None, env=None):
             if results[i].get("_crashed"):     # the worker had retired itself (or died): ask a fresh one, once
                 w = _Worker(module, env)
                 results[i] = w.call(t, timeout)
+            if fresh:                          # one interpreter per task
+                w.kill()
+                w = None
         if w is not None:
             try:
                 w.p.stdin.close()
